@@ -134,6 +134,24 @@ class USMSecurityParameters:
         """
         Construct a USMSecurityParameters instance from an SNMP/X690 Sequence
         """
+        expected_types = (
+            OctetString,
+            Integer,
+            Integer,
+            OctetString,
+            OctetString,
+            OctetString,
+        )
+        for item, expected_type in zip(seq, expected_types):
+            # Values of another type (also of a subclass like TimeTicks)
+            # would be kept (f.ex. as engine boots after a discovery) and
+            # make every later request fail.
+            # pylint: disable-next=unidiomatic-typecheck
+            if type(item) is not expected_type:
+                raise SnmpError(
+                    "Malformed USM security parameters: expected "
+                    f"{expected_type.__name__} but got {type(item).__name__}"
+                )
         return USMSecurityParameters(
             authoritative_engine_id=seq[0].pythonize(),
             authoritative_engine_boots=seq[1].pythonize(),
